@@ -835,3 +835,640 @@ def r_stale(P, chk):
                               "buffer: the pointer may refer to freed memory" % (
                                   f.name, name, base, fld, dnode["l"], iv.get("callee") or "a store to the field", iv["l"]))
     chk.floor(rid, n, 3, "buffer-derived pointers with a possible reallocation in scope")
+
+
+# ---------------------------------------------------------------------------
+# R-SCANIDX: a sentinel scan `for (i = 0; A[i]; i++)` bounds i by A's terminator only
+
+COPIERS = {"my_strndup": 0, "my_strdup": 0, "strdup": 0, "strndup": 0}
+
+
+def r_scanidx(P, chk):
+    rid = "R-SCANIDX"
+    chk.rule(rid, "in a loop bounded only by a sentinel test A[i] (or i < strlen(A)), i indexes no other heap/pointer buffer B "
+                  "unless every definition of B in the function is a full-length copy of A")
+    n_loops = 0
+    for f in P.all_funcs:
+        if not P.first_party(f):
+            continue
+        for w in f.walk():
+            if w["k"] == "ForStmt":
+                cond, body = w["c"][1], [w["c"][2], w["c"][3]]
+            elif w["k"] == "WhileStmt":
+                cond, body = w["c"][0], [w["c"][1]]
+            else:
+                continue
+            c = strip(cond)
+            if c is None:
+                continue
+            if c["k"] == "BinaryOperator" and c["op"] == "!=" and const_value(c["c"][1]) == 0:
+                c = strip(c["c"][0])
+            base = idx = None
+            if c["k"] == "ArraySubscriptExpr":
+                base, idx = strip(c["c"][0]), strip(c["c"][1])
+            elif c["k"] == "BinaryOperator" and c["op"] == "<":
+                r = strip(c["c"][1])
+                if r is not None and r["k"] == "CallExpr" and r.get("callee") == "strlen":
+                    base, idx = strip(r["c"][1]), strip(c["c"][0])
+            if base is None or idx is None or idx["k"] != "DeclRefExpr" or idx.get("dk") != "Var":
+                continue
+            n_loops += 1
+            bk, ik = key(base), idx["n"]
+            for part in body:
+                if part is None:
+                    continue
+                for x in walk(part):
+                    if x["k"] != "ArraySubscriptExpr" or key(x["c"][1]) != ik:
+                        continue
+                    b = strip(x["c"][0])
+                    ok_ = key(b)
+                    if ok_ == bk:
+                        continue
+                    bt = (b.get("t") or "")
+                    if "[" in bt:
+                        continue            # fixed array: R-ARRAY's obligation
+                    # every definition of B must be a full copy of A
+                    defs = []
+                    for y in f.walk():
+                        if y["k"] == "VarDecl" and y["n"] == ok_ and y.get("c") and y["c"][0] is not None:
+                            defs.append(y["c"][0])
+                        elif y["k"] == "BinaryOperator" and y["op"] == "=" and key(y["c"][0]) == ok_:
+                            defs.append(y["c"][1])
+                    tied = bool(defs)
+                    for d in defs:
+                        d = strip(d)
+                        if d is not None and d["k"] in ("IntegerLiteral", "GNUNullExpr") or (d is not None and const_value(d) == 0):
+                            continue
+                        if d is None or d["k"] != "CallExpr" or d.get("callee") not in COPIERS:
+                            tied = False
+                            break
+                        a = d["c"][1:]
+                        if key(a[0]) != bk:
+                            tied = False
+                            break
+                        if len(a) > 1 and key(a[1]) != "strlen(%s)" % bk:
+                            tied = False
+                            break
+                    chk.obligation(rid, "%s:%s: %s[%s] in scan of %s" % (f.unit.base, f.name, ok_, ik, bk), ok=tied)
+                    if not tied:
+                        chk.violation(rid, "scanidx:%s:%s:%s" % (f.unit.base, f.name, ok_), f.where(x),
+                                      "%s[%s] is accessed in a loop bounded only by the terminator of %s; nothing ties the extent "
+                                      "of %s to the length of %s" % (ok_, ik, bk, ok_, bk))
+    chk.floor(rid, n_loops, 2, "sentinel-bounded index loops")
+    chk.analysed[rid] = {"sentinel_loops": n_loops}
+
+
+# ---------------------------------------------------------------------------
+# R-SCANSTOP: forward scans over NUL-terminated text stop at the terminator
+
+def byte_predicates(P):
+    """name -> [bool]*256 for the table-driven classifiers of char.c (`return smart_char_type[(unsigned char) c] & MASK`)."""
+    u = P.units.get("char.c")
+    if u is None:
+        raise AnalysisBroken("char.c is gone")
+    tab = [v for v in u.vars if v["name"] == "smart_char_type"]
+    if not tab or not isinstance(tab[0].get("init"), list) or len(tab[0]["init"]) != 256:
+        raise AnalysisBroken("char.c: smart_char_type[256] initialiser not found")
+    table = tab[0]["init"]
+    gvals = {v["name"]: v["init"] for v in u.vars if isinstance(v.get("init"), int)}
+    assigned = set()
+    for f in u.funcs.values():
+        for x in f.walk():
+            if (x["k"] == "BinaryOperator" and x["op"] == "=") or x["k"] == "CompoundAssignOperator":
+                assigned.add(key(x["c"][0]))
+    out = {}
+    for f in u.funcs.values():
+        if len(f.params) != 1 or f.params[0][1].strip() != "char":
+            continue
+        rets = [x for x in f.walk() if x["k"] == "ReturnStmt" and x.get("c")]
+        if len(rets) != 1:
+            continue
+        r = strip(rets[0]["c"][0])
+        if r is None or r["k"] != "BinaryOperator" or r["op"] != "&":
+            continue
+        a, b = strip(r["c"][0]), strip(r["c"][1])
+        if a is None or a["k"] != "ArraySubscriptExpr" or key(a["c"][0]) != "smart_char_type":
+            continue
+        m = const_value(b)
+        if m is None and b is not None and b["k"] == "DeclRefExpr" and b["n"] in gvals and b["n"] not in assigned:
+            m = gvals[b["n"]]
+        if m is None:
+            continue
+        out[f.name] = [bool(table[i] & m) for i in range(256)]
+    return out
+
+
+def _eval_at_nul(cond, cursor_keys, preds):
+    """Three-valued value of a loop condition when the character under the cursor is NUL (None = unknown)."""
+    c = strip(cond)
+    if c is None:
+        return None
+    k = c["k"]
+    if key(c) in cursor_keys:
+        return False
+    if k == "BinaryOperator":
+        op = c["op"]
+        if op in ("&&", "||"):
+            x, y = _eval_at_nul(c["c"][0], cursor_keys, preds), _eval_at_nul(c["c"][1], cursor_keys, preds)
+            if op == "&&":
+                if x is False or y is False:
+                    return False
+                return True if (x is True and y is True) else None
+            if x is True or y is True:
+                return True
+            return False if (x is False and y is False) else None
+        if op in ("==", "!="):
+            for p, q in ((c["c"][0], c["c"][1]), (c["c"][1], c["c"][0])):
+                if key(p) in cursor_keys and const_value(q) is not None:
+                    eq = const_value(q) == 0
+                    return eq if op == "==" else not eq
+        return None
+    if k == "UnaryOperator" and c["op"] == "!":
+        x = _eval_at_nul(c["c"][0], cursor_keys, preds)
+        return None if x is None else not x
+    if k == "CallExpr" and c.get("callee") in preds and len(c["c"]) == 2 and key(c["c"][1]) in cursor_keys:
+        return preds[c["callee"]][0]
+    return None
+
+
+# forward scans that cannot meet the terminator for a reason outside the loop (reviewed)
+SCANSTOP_REVIEWED = {
+    ("mmd.c", "mmd_engine_update_metavalue_for_key", "*begin"):
+        "begin starts at the first byte of a metadata key that the parser recorded (m->start): a ':' follows on that line",
+}
+
+
+def r_scanstop(P, chk):
+    rid = "R-SCANSTOP"
+    chk.rule(rid, "a forward scan whose only stop condition is a test of the character under the cursor stops on NUL "
+                  "(the condition, evaluated with the classifier tables of char.c, is false for the terminator)")
+    preds = byte_predicates(P)
+    chk.floor(rid, len(preds), 8, "table-driven byte classifiers decoded from char.c")
+    n = 0
+    for f in P.all_funcs:
+        if not first_party_logic(P, f):
+            continue
+        for w in f.walk():
+            if w["k"] == "WhileStmt":
+                cond, parts = w["c"][0], [w["c"][1]]
+            elif w["k"] == "ForStmt":
+                cond, parts = w["c"][1], [w["c"][2], w["c"][3]]
+            else:
+                continue
+            if cond is None:
+                continue
+            # cursors: *p or s[i] in the condition, with p / i advanced forward in the loop
+            cursors = {}
+            for x in walk(cond):
+                if x["k"] == "UnaryOperator" and x["op"] == "*":
+                    v = strip(x["c"][0])
+                    if v is not None and v["k"] == "DeclRefExpr" and (v.get("t") or "").replace("const ", "").strip() in ("char *", "unsigned char *"):
+                        cursors[key(x)] = {v["n"]}
+                elif x["k"] == "ArraySubscriptExpr":
+                    i = strip(x["c"][1])
+                    b = strip(x["c"][0])
+                    if i is not None and b is not None and "char" in (b.get("t") or ""):
+                        vs = [y["n"] for y in walk(i) if y["k"] == "DeclRefExpr" and y.get("dk") == "Var"]
+                        if i["k"] == "DeclRefExpr" and i.get("dk") == "Var":
+                            cursors[key(x)] = {i["n"]}
+                        elif i["k"] == "BinaryOperator" and i["op"] == "+" and vs:
+                            cursors[key(x)] = set(vs)
+            if not cursors:
+                continue
+            adv = set()
+            for part in parts:
+                if part is None:
+                    continue
+                for x in walk(part):
+                    if x["k"] == "UnaryOperator" and x["op"] in ("post++", "pre++"):
+                        adv.add(key(x["c"][0]))
+                    elif x["k"] == "CompoundAssignOperator" and x["op"] == "+=":
+                        adv.add(key(x["c"][0]))
+            cur = {ck: v for ck, v in cursors.items() if v & adv}
+            if not cur:
+                continue
+            n += 1
+            val = _eval_at_nul(cond, set(cur), preds)
+            ok = val is not True
+            why = ""
+            for ck in cur:
+                r = SCANSTOP_REVIEWED.get((f.unit.base, f.name, ck))
+                if r and not ok:
+                    ok, why = True, " (reviewed: %s)" % r
+                    chk.notes.append("R-SCANSTOP reviewed %s:%s %s: %s" % (f.unit.base, f.name, ck, r))
+            chk.obligation(rid, "%s %s: while (%s)%s" % (f.where(w), f.name, key(cond)[:70], why), ok=ok)
+            if not ok:
+                chk.violation(rid, "scanstop:%s:%s:%s" % (f.unit.base, f.name, sorted(cur)[0]), f.where(w),
+                              "the scan `while (%s)` keeps advancing when the character is NUL: it runs off the end of the text" % key(cond)[:80])
+    chk.floor(rid, n, 15, "forward character scans")
+    chk.analysed[rid] = {"scans": n, "classifiers": sorted(preds)}
+
+
+# ---------------------------------------------------------------------------
+# R-OWN: only the engine owns token trees
+
+DEEP_FREE = ("token_free", "token_tree_free")
+
+
+def r_own(P, chk):
+    """P should be the -DDISABLE_OBJECT_POOL program (there the frees are real)."""
+    rid = "R-OWN"
+    chk.rule(rid, "token trees are released deeply (token_free / token_tree_free) only through a local that holds a detached or "
+                  "freshly built chain, or through the engine's root: note / link / abbreviation records borrow their tokens "
+                  "from the document tree and may release at most a wrapper node with free()")
+    n = 0
+    for f in P.all_funcs:
+        if not P.first_party(f) or f.unit.base == "token.c":
+            continue
+        for c in f.calls():
+            if c.get("callee") not in DEEP_FREE or len(c["c"]) < 2:
+                continue
+            n += 1
+            a = strip(c["c"][1])
+
+            def through(e, depth=0):
+                """(ok, why) for one expression: which record does it reach the token through?"""
+                m = strip(e)
+                why = "local"
+                while m is not None and m["k"] in ("MemberExpr", "ArraySubscriptExpr", "UnaryOperator"):
+                    if m["k"] == "MemberExpr":
+                        rec = m.get("rec") or ""
+                        if "mmd_engine" in rec:
+                            why = "engine field " + m["n"]
+                        elif rec.replace("struct ", "").strip() != "token":
+                            return False, "field %s of %s" % (m["n"], rec or "a record")
+                    m = strip(m["c"][0])
+                if m is not None and m["k"] == "DeclRefExpr" and m.get("dk") == "Var" and depth < 3:
+                    # every definition of the local
+                    for y in f.walk():
+                        d = None
+                        if y["k"] == "VarDecl" and y["n"] == m["n"] and y.get("c") and y["c"][0] is not None:
+                            d = y["c"][0]
+                        elif y["k"] == "BinaryOperator" and y["op"] == "=" and key(y["c"][0]) == m["n"]:
+                            d = y["c"][1]
+                        if d is not None and strip(d) is not None and strip(d)["k"] in ("MemberExpr", "ArraySubscriptExpr", "UnaryOperator", "DeclRefExpr") \
+                                and key(d) != m["n"] and not key(d).startswith(m["n"] + "->"):
+                            r = through(d, depth + 1)
+                            if not r[0]:
+                                return r
+                return True, why
+            ok, why = through(a)
+            chk.obligation(rid, "%s %s: %s(%s) - %s" % (f.where(c), f.name, c["callee"], key(a), why), ok=ok)
+            if not ok:
+                chk.violation(rid, "own:%s:%s:%s" % (f.unit.base, f.name, key(a)), f.where(c),
+                              "%s(%s) deep-frees tokens reached through %s: records hold tokens that still belong to the document "
+                              "tree, which the engine frees again (double free without the object pool)" % (c["callee"], key(a), why))
+    chk.floor(rid, n, 8, "deep token frees outside token.c")
+    chk.analysed[rid] = {"deep_free_sites": n, "configuration": P.config}
+
+
+# ---------------------------------------------------------------------------
+# R-HEAPIDX: writes into a freshly malloc'ed character buffer stay inside the size that was requested
+
+HEAPIDX_REVIEWED = {
+}
+
+UNSIGNED_T = ("size_t", "unsigned long", "unsigned int", "unsigned long long", "unsigned short", "unsigned char")
+
+
+def r_heapidx(P, chk):
+    from .rules_misc import _linear
+    rid = "R-HEAPIDX"
+    chk.rule(rid, "within the function that mallocs a character buffer of SIZE bytes, every p[I] store needs I < SIZE and every "
+                  "memcpy/strncpy/memmove/memset of LEN bytes needs LEN <= SIZE, by linear arithmetic over the same atoms or by a "
+                  "relational fact of the interval analysis at the write")
+    n = 0
+    ubs = {}
+
+    def sub(a, b):
+        out = dict(a)
+        for k2, v in b.items():
+            out[k2] = out.get(k2, 0) - v
+        return {k2: v for k2, v in out.items() if v != 0}
+
+    for f in P.all_funcs:
+        if not P.first_party(f) or f.unit.base in ("miniz.c", "argtable3.c"):
+            continue
+        allocs = []
+        for x in f.walk():
+            if x.get("m"):
+                continue
+            tgt = rhs = ty = None
+            if x["k"] == "VarDecl" and x.get("c") and x["c"][0] is not None:
+                tgt, rhs, ty = x["n"], x["c"][0], x.get("t", "")
+            elif x["k"] == "BinaryOperator" and x["op"] == "=":
+                tgt, rhs, ty = key(x["c"][0]), x["c"][1], (strip(x["c"][0]) or {}).get("t", "")
+            if rhs is None:
+                continue
+            r = strip(rhs)
+            if r is None or r["k"] != "CallExpr" or r.get("callee") != "malloc" or r.get("m"):
+                continue
+            if ty.replace("const ", "").replace("unsigned ", "").strip() != "char *":
+                continue
+            allocs.append((tgt, r["c"][1], x))
+        for tgt, size, an in allocs:
+            S = _linear(f, size)
+            if "i" not in an:
+                an = f.parent(an) or an
+            if "i" not in an:
+                continue
+            for x in f.walk():
+                kind = e = None
+                if x["k"] == "BinaryOperator" and x["op"] == "=":
+                    l = strip(x["c"][0])
+                    if l is not None and l["k"] == "ArraySubscriptExpr" and key(l["c"][0]) == tgt:
+                        kind, e = "idx", l["c"][1]
+                elif x["k"] == "CallExpr" and x.get("callee") in ("memcpy", "memmove", "strncpy", "memset") and len(x["c"]) > 3 and key(x["c"][1]) == tgt:
+                    kind, e = x["callee"], x["c"][3]
+                elif x["k"] == "CallExpr" and x.get("callee") == "strcpy" and key(x["c"][1]) == tgt:
+                    kind, e = "strcpy", x["c"][2]
+                if kind is None:
+                    continue
+                # the write must be governed by this allocation: the malloc assignment dominates it and no other
+                # definition of the pointer lies between them
+                if not f.cfg.dominates(an["i"], x["i"]):
+                    continue
+                other = False
+                for y in f.walk():
+                    if y is an:
+                        continue
+                    if (y["k"] == "BinaryOperator" and y["op"] == "=" and key(y["c"][0]) == tgt) and \
+                            f.cfg.dominates(an["i"], y["i"]) and f.cfg.dominates(y["i"], x["i"]):
+                        other = True
+                if other:
+                    continue
+                n += 1
+                ok = False
+                how = ""
+                if kind == "strcpy":
+                    need = {"strlen(%s)" % key(e): 1, 1: 1}
+                    d = sub(S or {}, need) if S is not None else None
+                    ok = d is not None and all(k2 == 1 for k2 in d) and d.get(1, 0) >= 0
+                    how = "size - (strlen(src)+1) = %s" % d
+                else:
+                    E = _linear(f, e)
+                    if S is not None and E is not None:
+                        d = sub(S, E)
+                        lim = 1 if kind == "idx" else 0
+                        def nonneg(atom):
+                            if atom.startswith("strlen("):
+                                return True
+                            for y in f.walk():
+                                if y["k"] in ("MemberExpr", "DeclRefExpr") and key(y) == atom:
+                                    return (y.get("t") or "").replace("const ", "").strip() in UNSIGNED_T
+                            return False
+                        if all(k2 == 1 or (v > 0 and nonneg(k2)) for k2, v in d.items()) and d.get(1, 0) >= lim:
+                            ok, how = True, "size - %s >= %s" % ("index" if kind == "idx" else "length", d.get(1, 0))
+                    if not ok:
+                        ub = ubs.get(f)
+                        if ub is None:
+                            ub = ubs[f] = UB1(f)
+                        st = ub.state_at(x)
+                        sk, ek = key(size), key(e)
+                        if st is not None:
+                            r1 = st.get("?rel:%s<%s" % (ek, sk))
+                            r2 = st.get("?rel:(%s+1)<%s" % (ek, sk))
+                            if kind == "idx" and (r1 == (0, 0) or r2 in ((0, 0), (0, 1))):
+                                ok, how = True, "relational fact %s < %s" % (ek, sk)
+                            if kind != "idx" and (r1 in ((0, 0), (0, 1)) or r2 in ((0, 0), (0, 1))):
+                                ok, how = True, "relational fact %s <= %s" % (ek, sk)
+                desc = "%s[%s]" % (tgt, key(e)) if kind == "idx" else "%s(%s, .., %s)" % (kind, tgt, key(e))
+                rv = HEAPIDX_REVIEWED.get((f.unit.base, f.name, desc))
+                if not ok and rv:
+                    ok, how = True, "reviewed: " + rv
+                    chk.notes.append("R-HEAPIDX reviewed %s:%s %s: %s" % (f.unit.base, f.name, desc, rv))
+                chk.obligation(rid, "%s %s: %s within malloc(%s) (%s)" % (f.where(x), f.name, desc, key(size), how), ok=ok)
+                if not ok:
+                    chk.violation(rid, "heapidx:%s:%s:%s" % (f.unit.base, f.name, desc), f.where(x),
+                                  "%s writes %s but the buffer was allocated with malloc(%s): nothing shows the write stays inside" % (
+                                      f.name, desc, key(size)))
+    chk.floor(rid, n, 12, "writes into freshly allocated character buffers")
+    chk.analysed[rid] = {"writes": n}
+
+
+# ---------------------------------------------------------------------------
+# R-UAF (lite): a pointer is not dereferenced after it was handed to a deallocator, directly or through a helper
+
+FREERS = ("free", "token_free", "token_tree_free")
+
+
+def _free_summaries(P):
+    """fid -> set of (param index, field or '') : the callee frees param (field '') or the object param->field held on entry."""
+    from .prog import single_assignment_locals
+    summ = {}
+    for rounds in range(3):
+        changed = False
+        for g in P.all_funcs:
+            if not P.first_party(g):
+                continue
+            gid = P.fid(g)
+            pidx = {p[0]: i for i, p in enumerate(g.params)}
+            sal = single_assignment_locals(g)
+            assigned = None
+
+            def resolve(e, depth=0):
+                e = strip(e)
+                if e is None:
+                    return None
+                if e["k"] == "DeclRefExpr":
+                    if e["n"] in pidx and e.get("dk") == "Parm":
+                        return (pidx[e["n"]], "")
+                    if e["n"] in sal and depth < 3:
+                        return resolve(sal[e["n"]], depth + 1)
+                    return None
+                if e["k"] == "MemberExpr" and e.get("arrow"):
+                    b = strip(e["c"][0])
+                    if b is not None and b["k"] == "DeclRefExpr" and b["n"] in pidx and b.get("dk") == "Parm":
+                        return (pidx[b["n"]], e["n"])
+                return None
+            def guard_of(c):
+                """(param index) if the call lies in the then-branch of `if (param)`, else None."""
+                cur = c
+                for a in g.ancestors(c):
+                    if a["k"] == "IfStmt" and a["c"][1] is not None and any(x is cur for x in walk(a["c"][1])):
+                        cd = strip(a["c"][0])
+                        if cd is not None and cd["k"] == "DeclRefExpr" and cd.get("dk") == "Parm" and cd["n"] in pidx:
+                            return pidx[cd["n"]]
+                    cur = a
+                return None
+            for c in g.calls():
+                cal = c.get("callee")
+                if not cal or len(c["c"]) < 2:
+                    continue
+                new = set()
+                gd = guard_of(c)
+                if cal in FREERS:
+                    r = resolve(c["c"][1])
+                    if r is not None:
+                        new.add(r + (gd,))
+                else:
+                    h = P.resolve(g, cal)
+                    if h is not None and P.first_party(h):
+                        for (j, fld, hg) in summ.get(P.fid(h), ()):
+                            if hg is not None and hg < len(c["c"]) - 1 and const_value(c["c"][1 + hg]) == 0:
+                                continue       # the callee releases only when that argument is true
+                            if j < len(c["c"]) - 1 and fld == "":
+                                r = resolve(c["c"][1 + j])
+                                if r is not None:
+                                    new.add(r + (gd,))
+                            elif j < len(c["c"]) - 1:
+                                a = strip(c["c"][1 + j])
+                                if a is not None and a["k"] == "DeclRefExpr" and a["n"] in pidx and a.get("dk") == "Parm":
+                                    new.add((pidx[a["n"]], fld, gd))
+                if new - summ.get(gid, set()):
+                    summ.setdefault(gid, set()).update(new)
+                    changed = True
+        if not changed:
+            break
+    return summ
+
+
+def r_uaf(P, chk):
+    rid = "R-UAF"
+    chk.rule(rid, "a local pointer is not dereferenced on any CFG path after the object it points to was released - by free / "
+                  "token_free on the local itself, or by a helper that frees its argument or the object its argument's field held "
+                  "on entry (one-level summaries) - unless the local is reassigned first")
+    summ = _free_summaries(P)
+    n = 0
+    for f in P.all_funcs:
+        if not P.first_party(f) or f.unit.base in compdb.GENERATED_UNITS or f.unit.base in ("miniz.c", "argtable3.c"):
+            continue
+        events = []      # (call node, local name) : after this call the local dangles
+        for c in f.calls():
+            cal = c.get("callee")
+            if not cal or len(c["c"]) < 2 or c.get("m"):
+                continue
+            if cal in FREERS:
+                a = strip(c["c"][1])
+                if a is not None and a["k"] == "DeclRefExpr" and a.get("dk") in ("Var", "Parm"):
+                    events.append((c, a["n"], "%s(%s)" % (cal, a["n"])))
+                continue
+            h = P.resolve(f, cal)
+            if h is None or not P.first_party(h):
+                continue
+            for (j, fld, hg) in summ.get(P.fid(h), ()):
+                if j >= len(c["c"]) - 1:
+                    continue
+                if hg is not None and hg < len(c["c"]) - 1 and const_value(c["c"][1 + hg]) == 0:
+                    continue
+                a = strip(c["c"][1 + j])
+                if a is None:
+                    continue
+                if fld == "":
+                    if a["k"] == "DeclRefExpr" and a.get("dk") in ("Var", "Parm"):
+                        events.append((c, a["n"], "%s(..%s..) frees its argument" % (cal, a["n"])))
+                else:
+                    base = key(a)
+                    # locals holding base->fld at the call: assigned from it earlier, assignment dominates the call
+                    for y in f.walk():
+                        nm = init = node = None
+                        if y["k"] == "VarDecl" and y.get("c") and y["c"][0] is not None:
+                            nm, init, node = y["n"], y["c"][0], f.parent(y)
+                        elif y["k"] == "BinaryOperator" and y["op"] == "=" and strip(y["c"][0]) is not None and strip(y["c"][0])["k"] == "DeclRefExpr":
+                            nm, init, node = strip(y["c"][0])["n"], y["c"][1], y
+                        if nm is None or node is None or "i" not in node:
+                            continue
+                        if key(init) == base + "->" + fld and f.cfg.dominates(node["i"], c["i"]):
+                            events.append((c, nm, "%s(%s) frees %s->%s, which `%s` still points to" % (cal, base, base, fld, nm)))
+        if not events:
+            continue
+        pos = f.cfg.positions()
+        for c, nm, why in events:
+            if c["i"] not in pos:
+                continue
+            n += 1
+            b0, i0 = pos[c["i"]]
+            # redefinitions of nm
+            redef = {}
+            for y in f.walk():
+                if y["k"] == "BinaryOperator" and y["op"] == "=" and key(y["c"][0]) == nm and y["i"] in pos:
+                    b, i = pos[y["i"]]
+                    redef.setdefault(b, []).append(i)
+            # dereferences of nm
+            bad = None
+            derefs = []
+            for y in f.walk():
+                hit = (y["k"] == "MemberExpr" and y.get("arrow") and key(y["c"][0]) == nm) or \
+                      (y["k"] == "UnaryOperator" and y["op"] == "*" and key(y["c"][0]) == nm) or \
+                      (y["k"] == "ArraySubscriptExpr" and key(y["c"][0]) == nm)
+                if not hit:
+                    continue
+                z = y
+                while z is not None and z["i"] not in pos:
+                    z = f.parent(z)
+                if z is None:
+                    continue
+                derefs.append((pos[z["i"]], y))
+            if derefs:
+                # forward search from just after the call, stopping at redefinitions
+                seen = set()
+                st = []
+                cut0 = min([i for i in redef.get(b0, ()) if i > i0], default=None)
+                for (b, i), y in derefs:
+                    if b == b0 and i > i0 and (cut0 is None or i <= cut0):
+                        # an assignment `nm = f(nm->x)` evaluates its right side first: i <= cut is still a use
+                        bad = y
+                        break
+                if bad is None and cut0 is None:
+                    st = list(f.cfg.blocks[b0].rsucc)
+                while st and bad is None:
+                    b = st.pop()
+                    if b in seen:
+                        continue
+                    seen.add(b)
+                    cut = min(redef.get(b, ()), default=None)
+                    for (bb, i), y in derefs:
+                        if bb == b and (cut is None or i <= cut) and not (b == b0 and i <= i0 and cut is not None and False):
+                            if b == b0 and i <= i0:
+                                # reached the call's own block again through a loop: uses before the call are real uses
+                                pass
+                            bad = y
+                            break
+                    if bad is None and cut is None:
+                        st.extend(f.cfg.blocks[b].rsucc)
+            chk.obligation(rid, "%s %s: %s - no later use of `%s`" % (f.where(c), f.name, why, nm), ok=bad is None)
+            if bad is not None:
+                chk.violation(rid, "uaf:%s:%s:%s" % (f.unit.base, f.name, nm), f.where(bad),
+                              "`%s` is dereferenced (%s) after %s at %s" % (nm, f.src(bad)[:40], why, f.where(c)))
+    chk.floor(rid, n, 20, "release events on local pointers")
+    chk.analysed[rid] = {"release_events": n, "functions_with_free_summary": len(summ)}
+
+
+# ---------------------------------------------------------------------------
+# R-HASHKEY: uthash keeps the key *pointer*; it must point into storage that lives as long as the table entry
+
+def r_hashkey(P, chk):
+    rid = "R-HASHKEY"
+    chk.rule(rid, "every key pointer stored in a uthash handle (HASH_ADD_KEYPTR: `rec->hh.key = ptr`) is a string field of a record "
+                  "(owned by the entry or by the record it wraps), never a bare parameter or local whose storage the caller may free; "
+                  "the recorded key length is the length of that same string")
+    n = 0
+    for f in P.all_funcs:
+        if not P.first_party(f):
+            continue
+        keys = {}
+        lens = {}
+        for x in f.walk():
+            if x["k"] == "BinaryOperator" and x["op"] == "=" and (x.get("m") or "").startswith("HASH_ADD"):
+                l = key(x["c"][0])
+                if l.endswith("hh.key"):
+                    keys.setdefault(x["l"], []).append(x)
+                elif l.endswith("hh.keylen"):
+                    lens.setdefault(x["l"], []).append(x)
+        for line, xs in keys.items():
+            for x in xs:
+                n += 1
+                r = strip(x["c"][1])
+                ok = r is not None and r["k"] == "MemberExpr"
+                lk = [key(y["c"][1]) for y in lens.get(line, [])]
+                same = not lk or any(k2 == "strlen(%s)" % key(r) for k2 in lk)
+                chk.obligation(rid, "%s %s: hash key %s (length %s)" % (f.where(x), f.name, key(r), ",".join(lk)), ok=ok and same)
+                if not ok:
+                    chk.violation(rid, "hashkey:%s:%s:%s" % (f.unit.base, f.name, key(r)), f.where(x),
+                                  "%s stores `%s` as the key pointer of a hash entry: it is not a field of a record, so the table keeps "
+                                  "pointing at it after the caller releases it" % (f.name, key(r)))
+                elif not same:
+                    chk.violation(rid, "hashkey:len:%s:%s:%s" % (f.unit.base, f.name, key(r)), f.where(x),
+                                  "%s records key length %s for key %s" % (f.name, ",".join(lk), key(r)))
+    chk.floor(rid, n, 8, "HASH_ADD_KEYPTR sites")
+    chk.analysed[rid] = {"sites": n}
